@@ -158,3 +158,48 @@ package interp
 //@   opt opaque-havoc = none
 //@   requires [assume] len(n.child) == 2 && n.child[0] != nil && n.child[1] != nil
 //@   ensures sent-constant-representable: err == nil && old(n.child[1].typ != nil && n.child[1].typ.untyped && n.child[1].typ.cat != nilT && isC(n.child[1].rval)) && old(isChan(n.child[0].typ) && n.child[0].typ.val != nil && !n.child[0].typ.val.untyped && basicTarget(n.child[0].typ.val)) ==> representableConst(old(cOf(n.child[1].rval)), old(n.child[0].typ.val).TypeOf())
+
+// Constant builtins (run.go): len of a constant string is its length; len of an array type (through
+// pointers) is the array length; complex(a, b) / real(c) / imag(c) of constant operands.
+//@ func lenConst(n)
+//@   props C03
+//@   ints math
+//@   opt safety = off
+//@   opt loops = havoc
+//@   opt opaque-calls = *
+//@   opt opaque-havoc = none
+//@   requires [assume] n != nil && len(n.child) >= 2 && n.child[1] != nil && n.child[1] != n
+//@   requires [assume] string-lengths-fit-int: len(vString(n.child[1].rval)) <= 9223372036854775807
+//@   ensures length-of-the-constant-string: old(n.child[1].rval.IsValid()) ==> rvInt(n.rval) == len(vString(old(n.child[1].rval))) && rvKind(n.rval) == reflect.Int
+//@   canary old(n.child[1].rval.IsValid()) ==> rvInt(n.rval) == 0
+
+//@ func complexConst(n)
+//@   props C03
+//@   ints math
+//@   opt safety = off
+//@   opt opaque-calls = *
+//@   opt opaque-havoc = none
+//@   requires [assume] n != nil && len(n.child) >= 3 && n.child[1] != nil && n.child[2] != nil
+//@   ensures real-then-imaginary-part: old(n.child[1].rval.IsValid() && n.child[2].rval.IsValid()) ==> rvComplex(n.rval) == ccomplex(vFloat(old(n.child[1].rval)), vFloat(old(n.child[2].rval)))
+//@   ensures otherwise-untouched: !old(n.child[1].rval.IsValid() && n.child[2].rval.IsValid()) ==> n.rval == old(n.rval)
+//@   canary old(n.child[1].rval.IsValid() && n.child[2].rval.IsValid()) ==> rvComplex(n.rval) == ccomplex(vFloat(old(n.child[2].rval)), vFloat(old(n.child[1].rval)))
+
+//@ func realConst(n)
+//@   props C03
+//@   ints math
+//@   opt safety = off
+//@   opt opaque-calls = *
+//@   opt opaque-havoc = none
+//@   requires [assume] n != nil && len(n.child) >= 2 && n.child[1] != nil
+//@   ensures real-part: old(n.child[1].rval.IsValid()) ==> rvFloat(n.rval) == creal(old(rvComplex(n.child[1].rval)))
+//@   canary old(n.child[1].rval.IsValid()) ==> rvFloat(n.rval) == cimag(old(rvComplex(n.child[1].rval)))
+
+//@ func imagConst(n)
+//@   props C03
+//@   ints math
+//@   opt safety = off
+//@   opt opaque-calls = *
+//@   opt opaque-havoc = none
+//@   requires [assume] n != nil && len(n.child) >= 2 && n.child[1] != nil
+//@   ensures imaginary-part: old(n.child[1].rval.IsValid()) ==> rvFloat(n.rval) == cimag(old(rvComplex(n.child[1].rval)))
+//@   canary old(n.child[1].rval.IsValid()) ==> rvFloat(n.rval) == creal(old(rvComplex(n.child[1].rval)))
